@@ -7,7 +7,10 @@ definitions the driver runs against the Go code), for EVERY parameter pair with
 `16 KiB ≤ maxEntry ≤ bufSize` (the Go constants 16 KiB / 1.6 MB are one
 instance, `C20_goParams_ok`), every line file, every reader state.
 -/
-import AGH.Lemmas.QLogCompose
+import AGH.Lemmas.QLogFileBridge
+import AGH.Lemmas.QLogAny
+import AGH.Lemmas.QLogTS
+import AGH.Gen.C20Consts
 namespace AGH.C20
 open AGH
 
@@ -33,17 +36,19 @@ theorem C20_readall (P : Params) (hP1 : entryLimit ≤ P.maxEntry) (hP2 : P.maxE
 /-- **Seek to a stored timestamp.**  In a line file with strictly increasing
 non-zero timestamps (below 2⁶³ bytes, as every Go file is), seeking the
 timestamp of entry `i` succeeds — the depth guard, the same-line guard and the
-end-of-file guard never fire — and the following `n` reads return entries
-`i, i-1, …` (then `io.EOF`). -/
+end-of-file guard never fire; it takes `d+1` probes with `2^d ≤ size` (at most
+⌊log₂ size⌋+1 ≤ 63) — and the following `n` reads return entries `i, i-1, …`
+(then `io.EOF`). -/
 theorem C20_seek_found (P : Params) (hP1 : entryLimit ≤ P.maxEntry) (hP2 : P.maxEntry ≤ P.bufSize)
     (tsOf : Bytes → Int) (lines : List Bytes) (ctx : SeekCtx tsOf lines)
     (hsize : (render lines).length < 2 ^ 63) (i : Nat) (hi : i < lines.length) (q : QState) (n : Nat) :
     ∃ q1 pos d, seekTS P (fileOfLines lines) tsOf q (tsOf lines[i]) = (q1, .ok (pos, d)) ∧
+      2 ^ d ≤ (render lines).length ∧
       ∃ q' rs, fReadMany P (fileOfLines lines) n q1 [] =
           (q', rs, if n > i + 1 then some Err.eof else none) ∧
         rs.map (fun r => (fileOfLines lines).slice r.1 r.2) = ((lines.take (i + 1)).reverse).take n := by
-  obtain ⟨d, hseek⟩ := seekTS_found P tsOf _ lines hP1 ctx hsize i hi rfl q
-  refine ⟨_, _, d, hseek, ?_⟩
+  obtain ⟨d, hd, hseek⟩ := seekTS_found P tsOf _ lines hP1 ctx hsize i hi rfl q
+  refine ⟨_, _, d, hseek, hd, ?_⟩
   have hpos : FilePos P lines (i + 1)
       { q with hasBuf := false, position := (render (lines.take (i + 1))).length - 1 } :=
     ⟨by omega, rfl, by intro h; simp at h⟩
@@ -324,6 +329,175 @@ theorem C20_zero_stamp_seek_fails (P : Params) (hP1 : entryLimit ≤ P.maxEntry)
     seekTS P (fileOfLines (A ++ x :: B)) tsOf q target = ({ q with hasBuf := false }, .error .emptyTS) :=
   seekTS_zero_stamp P tsOf target (A ++ x :: B) hP1 A B x rfl hx hz h1 h2 q
 
+
+/-! ### C20 is the byte level of C07's list-level FILE -/
+
+/-- **Refinement at file level.**  For any list `es` of entries stored as lines
+`enc e` (each a line of the property's kind, C07's order `Asc`), the byte-level
+`qLogFile` over `concat (map encodeLine es)` is C07's list-level file:
+* `SeekStart` + `n × ReadNext` = the last `n` elements, newest first ("ReadNext =
+  previous element"), `io.EOF` exactly after the oldest;
+* `seekTS t` = C07's `fileSeek es t`: `found k` ⇒ success within ⌊log₂ size⌋+1
+  probes and the following reads return `es[k], es[k-1], …`; `tooEarly` /
+  `tooLate` / `notFound` ⇒ exactly that error and the position is untouched. -/
+theorem C20_refines_c07_file_level (P : Params) (hP1 : entryLimit ≤ P.maxEntry)
+    (hP2 : P.maxEntry ≤ P.bufSize) (enc : C07.Entry → Bytes) (tsOf : Bytes → Int)
+    (es : List C07.Entry) (h : Enc enc tsOf es) (q : QState) :
+    (∀ n, ∃ q' rs, fReadMany P (fileOfLines (es.map enc)) n
+          (seekStart (fileOfLines (es.map enc)) q) [] =
+          (q', rs, if n > es.length then some Err.eof else none) ∧
+        rs.map (fun r => (fileOfLines (es.map enc)).slice r.1 r.2) = (es.reverse.map enc).take n) ∧
+    (∀ t k, C07.fileSeek es t = .found k →
+        ∃ q1 pos d, seekTS P (fileOfLines (es.map enc)) tsOf q t = (q1, .ok (pos, d)) ∧
+          2 ^ d ≤ (render (es.map enc)).length ∧
+          ∀ n, ∃ q' rs, fReadMany P (fileOfLines (es.map enc)) n q1 [] =
+              (q', rs, if n > k + 1 then some Err.eof else none) ∧
+            rs.map (fun r => (fileOfLines (es.map enc)).slice r.1 r.2) =
+              (((es.take (k + 1)).reverse).map enc).take n) ∧
+    (∀ t, (∀ k, C07.fileSeek es t ≠ .found k) →
+        seekTS P (fileOfLines (es.map enc)) tsOf q t =
+          ({ q with hasBuf := false }, .error (classErr (C07.fileSeek es t)))) := by
+  have ctx := h.seekCtx enc tsOf es
+  refine ⟨?_, ?_, ?_⟩
+  · intro n
+    obtain ⟨q', rs, h1, h2⟩ := C20_readall P hP1 hP2 (es.map enc) ctx.ok q n
+    exact ⟨q', rs, by simpa using h1, by simpa [List.map_reverse] using h2⟩
+  · intro t k hfs
+    have hidx := fileSeek_found enc tsOf es t k h.ts hfs
+    obtain ⟨hk, hts⟩ := findStampIdx_some tsOf (es.map enc) t k hidx
+    obtain ⟨d, hd, hseek⟩ := seekTS_found P tsOf t (es.map enc) hP1 ctx h.small k hk hts q
+    refine ⟨_, _, d, hseek, hd, fun n => ?_⟩
+    have hpos : FilePos P (es.map enc) (k + 1)
+        { q with hasBuf := false, position := (render ((es.map enc).take (k + 1))).length - 1 } :=
+      ⟨by omega, rfl, by intro h; simp at h⟩
+    obtain ⟨q', rs, h1, h2, _⟩ := fReadMany_filePos P (es.map enc) hP1 hP2 ctx.ok n (k + 1) _ [] hpos
+    exact ⟨q', rs, by simpa using h1, by simpa [List.map_take, List.map_reverse] using h2⟩
+  · intro t hnf
+    obtain ⟨hnone, hcls⟩ := fileSeek_absent enc tsOf es t h.ts hnf
+    have habs := findStampIdx_none tsOf (es.map enc) t hnone
+    rw [seekTS_absent P tsOf t (es.map enc) hP1 ctx h.small habs q, hcls]
+
+/-! ### Outside the property's domain: what the code does, and that it never harms later reads -/
+
+/-- **Equal timestamps in neighbouring lines.**  With weakly increasing timestamps a
+seek to a stored timestamp still succeeds (no guard fires) and lands on SOME
+entry `i` carrying it — the one the binary search probes first, not necessarily
+the first or the last of the run (see the `example` below) — and the reads that
+follow return `i, i-1, …`.  "Positions the reader on that entry" therefore holds
+up to the choice among equal timestamps. -/
+theorem C20_seek_duplicates (P : Params) (hP1 : entryLimit ≤ P.maxEntry) (hP2 : P.maxEntry ≤ P.bufSize)
+    (tsOf : Bytes → Int) (lines : List Bytes) (ctx : SeekCtxLe tsOf lines)
+    (hsize : (render lines).length < 2 ^ 63) (target : Int) (hex : ∃ l ∈ lines, tsOf l = target)
+    (q : QState) (n : Nat) :
+    ∃ (i : Nat) (hi : i < lines.length) (q1 : QState) (pos d : Nat), tsOf lines[i] = target ∧
+      seekTS P (fileOfLines lines) tsOf q target = (q1, .ok (pos, d)) ∧
+      ∃ q' rs, fReadMany P (fileOfLines lines) n q1 [] =
+          (q', rs, if n > i + 1 then some Err.eof else none) ∧
+        rs.map (fun r => (fileOfLines lines).slice r.1 r.2) = ((lines.take (i + 1)).reverse).take n := by
+  obtain ⟨i, hi, d, hti, _, hseek⟩ := seekTS_found_le P tsOf target lines hP1 ctx hsize hex q
+  refine ⟨i, hi, _, _, d, hti, hseek, ?_⟩
+  have hpos : FilePos P lines (i + 1)
+      { q with hasBuf := false, position := (render (lines.take (i + 1))).length - 1 } :=
+    ⟨by omega, rfl, by intro h; simp at h⟩
+  obtain ⟨q', rs, h1, h2, _⟩ := fReadMany_filePos P lines hP1 hP2 ctx.ok n (i + 1) _ [] hpos
+  exact ⟨q', rs, by simpa using h1, h2⟩
+
+/-- …and an absent timestamp is reported by position exactly as with distinct ones. -/
+theorem C20_seek_duplicates_absent (P : Params) (hP1 : entryLimit ≤ P.maxEntry)
+    (tsOf : Bytes → Int) (lines : List Bytes) (ctx : SeekCtxLe tsOf lines)
+    (hsize : (render lines).length < 2 ^ 63) (target : Int)
+    (habs : ∀ l ∈ lines, tsOf l ≠ target) (q : QState) :
+    seekTS P (fileOfLines lines) tsOf q target =
+      ({ q with hasBuf := false }, .error (absentErr tsOf target lines)) :=
+  seekTS_absent_le P tsOf target lines hP1 ctx hsize habs q
+
+/-- **"Without ever looping", on ANY byte content** (garbage, overlong lines,
+non-monotone or unreadable timestamps, any `tsOf`): `seekTS` ends by one of
+its own `return`s after at most `maxDepth = 100` probes of ≤ 2·`maxEntry` bytes —
+the model's recursion budget (`Err.fuel`) is never what stops it; and when it
+reports success, the reader stands at the end of a stretch `file[a, pos)` whose
+timestamp IS the target, found at depth `< 100`. -/
+theorem C20_seek_terminates (P : Params) (f : File) (tsOf : Bytes → Int) (q : QState) (target : Int) :
+    (seekTS P f tsOf q target).2 ≠ .error .fuel ∧
+    ∀ pos d, (seekTS P f tsOf q target).2 = .ok (pos, d) →
+      (seekTS P f tsOf q target).1.position = pos ∧ d < maxDepth ∧
+      ∃ a, tsOf (f.slice a pos) = target := by
+  unfold seekTS
+  by_cases h0 : f.size = 0
+  · simp [h0]
+  · simp only [h0, if_false]
+    have hnf := seekLoop_ne_fuel P tsOf target f maxDepth 0 f.size ((f.size - 0) / 2) none 0 rfl (by decide)
+    cases hl : seekLoop P f tsOf target maxDepth 0 f.size ((f.size - 0) / 2) none 0 with
+    | error e =>
+      refine ⟨?_, (by intro pos d h; cases h)⟩
+      intro h; simp only [Except.error.injEq] at h; subst h; exact hnf hl
+    | ok r =>
+      obtain ⟨a, b, d'⟩ := r
+      obtain ⟨h1, _, h3⟩ := seekLoop_ok_sound P tsOf target f _ _ _ _ _ _ _ _ _ hl
+      refine ⟨(by intro h; cases h), ?_⟩
+      intro pos d h
+      simp only [Except.ok.injEq, Prod.mk.injEq] at h
+      obtain ⟨rfl, rfl⟩ := h
+      exact ⟨rfl, h3 (by decide), a, h1⟩
+
+/-- **Reads on ANY byte content** (a line of `maxEntry` bytes or more, no final
+newline, empty lines, CRLF, binary data): from a sound buffer state `ReadNext`
+never panics, keeps the buffer sound, returns `file[a, position)` for some
+`a ≤ position` and moves STRICTLY left — so whatever was returned for a
+malformed stretch, the state reached is again one from which well-formed lines
+are read correctly (`C20_read_local`). -/
+theorem C20_read_any_content (P : Params) (f : File) (q : QState) (hinv : Inv P f q) :
+    ∃ q' res, readNext P f q = (q', res) ∧ Inv P f q' ∧ q'.position ≤ q.position ∧
+      res ≠ .error .panic ∧ (q.position = 0 → res = .error .eof) ∧
+      ∀ a b, res = .ok (a, b) → a ≤ b ∧ b = q.position ∧ q'.position < q.position :=
+  readNext_any P f q hinv
+
+/-- …hence reading never loops: more than `position` calls end with an error that is
+not a panic (it is `io.EOF`), on any content. -/
+theorem C20_read_terminates (P : Params) (f : File) (n : Nat) (q : QState) (hinv : Inv P f q)
+    (h : q.position < n) : ∃ e, (fReadMany P f n q []).2.2 = some e ∧ e ≠ .panic :=
+  fReadMany_terminates P f n q [] hinv h
+
+/-- **Local correctness in ANY file.**  Wherever the reader stands on the newline of a
+line `file[s, e)` shorter than `maxEntry` — whatever surrounds it (overlong
+neighbours, garbage, a file that does not end in a newline) — `ReadNext`
+returns exactly that line and steps to the newline before it. -/
+theorem C20_read_local (P : Params) (hP2 : P.maxEntry ≤ P.bufSize) (f : File) (q : QState) (s e : Nat)
+    (hl : LineAt f s e) (hlen : e - s < P.maxEntry) (hpos : q.position = e) (he : 0 < e)
+    (hinv : Inv P f q) :
+    ∃ q', readNext P f q = (q', .ok (s, e)) ∧ q'.position = s - 1 ∧ Inv P f q' :=
+  readNext_line P f q s e hP2 hl hlen hpos he hinv
+
+/-- **`readQLogTimestamp` at byte level.**  The timestamp is the value of the FIRST
+occurrence of `"T":"` in the line, up to the next `"` — wherever the field
+stands (first or not); a line without it (or with an empty value) falls back
+to `"Time":"`; neither, or a value `time.Parse` rejects, reads as 0. -/
+theorem C20_timestamp_scan (parseTime : Bytes → Option Int) (pre v post : Bytes) (hv0 : v ≠ [])
+    (hno : ∀ j, j < pre.length → keyT.isPrefixOf ((pre ++ keyT ++ (v ++ 34 :: post)).drop j) = false)
+    (hv : ¬ (34 ∈ v)) :
+    readTimestamp parseTime (pre ++ keyT ++ (v ++ 34 :: post)) = (parseTime v).getD 0 := by
+  unfold readTimestamp
+  rw [readJSONValue_first keyT pre v post (by decide) hno hv]
+  have : ¬ (v.length = 0) := by
+    intro h; exact hv0 (List.eq_nil_of_length_eq_zero h)
+  simp only [this, if_false]
+  cases parseTime v <;> rfl
+
+/-- **Constants tied to the source** (regenerated from `qlogfile.go` on every run by
+`extract/cmd/c20`): the model's `goParams`, depth guard, probe-buffer factor,
+refill bound, timestamp keys and time layout are the source's, and they
+satisfy the hypotheses of all theorems above. -/
+theorem C20_gen_consts :
+    goParams = ⟨Gen.C20.maxEntrySize, Gen.C20.bufferSize⟩ ∧
+    entryLimit ≤ Gen.C20.maxEntrySize ∧ Gen.C20.maxEntrySize ≤ Gen.C20.bufferSize ∧
+    Gen.C20.depthGuard = maxDepth ∧
+    Gen.C20.refillBound = Gen.C20.maxEntrySize ∧
+    Gen.C20.initPositionBound = Gen.C20.bufferSize ∧ Gen.C20.initBufferLen = Gen.C20.bufferSize ∧
+    Gen.C20.probePositionBound = Gen.C20.maxEntrySize ∧
+    Gen.C20.probeBufferLen = 2 * Gen.C20.maxEntrySize ∧
+    Gen.C20.tsKeys = [keyT, keyTime] ∧ Gen.C20.timeLayout = rfc3339NanoLayout := by
+  decide
+
 /-! ### Non-vacuity: the hypotheses are satisfiable and the conclusions say something -/
 
 /-- Three entries with timestamps 1 < 2 < 3 (`tsOf` = length). -/
@@ -359,5 +533,46 @@ example : C07.seekFiles [] [{ (default : C07.Entry) with ts := 1 }, { (default :
 example : seekTS goParams (fileOfLines ([] ++ [65] :: [])) (fun _ => 0) {} 0 =
     ({ hasBuf := false }, .error .emptyTS) :=
   C20_zero_stamp_seek_fails goParams (by decide) _ 0 [] [] [65] (by decide) rfl (by decide) (by decide) {}
+
+/-- Duplicate timestamps: three entries stamped 2, 2, 2 after one stamped 1 — the seek
+lands on index 2 (the probe hits the middle of the file first), neither the
+first nor the last of the run. -/
+example : (seekTS goParams (fileOfLines [[65], [66, 67], [68, 69], [70, 71]])
+    (fun l => (l.length : Int)) {} 2).1.position = 7 := by decide
+
+/-- No final newline: the last byte of the last line is not returned ("cd" → "c"),
+the earlier line is intact. -/
+example : (fReadMany goParams (File.ofBytes [97, 98, 10, 99, 100]) 3
+    (seekStart (File.ofBytes [97, 98, 10, 99, 100]) {}) []).2 = ([(3, 4), (0, 2)], some .eof) := by decide
+
+/-- An empty line in the middle is returned as an empty line; a leading empty line is not
+returned at all (position 0 is EOF). -/
+example : (fReadMany goParams (File.ofBytes [10, 97, 10, 10, 98, 10]) 5
+    (seekStart (File.ofBytes [10, 97, 10, 10, 98, 10]) {}) []).2 =
+    ([(4, 5), (3, 3), (1, 2)], some .eof) := by decide
+
+/-- CRLF: the carriage return stays part of the returned line. -/
+example : (fReadMany goParams (File.ofBytes [97, 13, 10, 98, 13, 10]) 3
+    (seekStart (File.ofBytes [97, 13, 10, 98, 13, 10]) {}) []).2 = ([(3, 5), (0, 2)], some .eof) := by decide
+
+/-- A line longer than `maxEntry` (here maxEntry = 4, bufSize = 8; line "bcdefghijkl", 11
+bytes, between "a" and "m"): it comes back as "ghijkl" and "bcde" — the byte "f"
+at the window edge is lost — and the line BEFORE it ("a") is intact again. -/
+example : (fReadMany ⟨4, 8⟩ (File.ofBytes [97, 10, 98, 99, 100, 101, 102, 103, 104, 105, 106, 107, 108, 10, 109, 10]) 6
+    (seekStart (File.ofBytes [97, 10, 98, 99, 100, 101, 102, 103, 104, 105, 106, 107, 108, 10, 109, 10]) {}) []).2 =
+    ([(14, 15), (7, 13), (2, 6), (0, 1)], some .eof) := by decide
+
+/-- A file of one line. -/
+example : (fReadMany goParams (fileOfLines [[120, 121]]) 2 (seekStart (fileOfLines [[120, 121]]) {}) []).2 =
+    ([(0, 2)], some .eof) := by decide
+
+/-- Timestamp field not first: `{"QH":"h","T":"xy"}` → "xy". -/
+example : readJSONValue [123, 34, 81, 72, 34, 58, 34, 104, 34, 44, 34, 84, 34, 58, 34, 120, 121, 34, 125] keyT = [120, 121] := by decide
+/-- No timestamp field: `{"QH":"h"}` → 0. -/
+example : readTimestamp (fun v => some v.length) [123, 34, 81, 72, 34, 58, 34, 104, 34, 125] = 0 := by decide
+/-- `Time` fallback: `{"Time":"abc"}`. -/
+example : readTimestamp (fun v => some v.length) [123, 34, 84, 105, 109, 101, 34, 58, 34, 97, 98, 99, 34, 125] = 3 := by decide
+/-- Escaped quotes in an earlier value do not match the key: `{"QH":"a\"T\":\"b","T":"xy"}` → "xy". -/
+example : readJSONValue [123, 34, 81, 72, 34, 58, 34, 97, 92, 34, 84, 92, 34, 58, 92, 34, 98, 34, 44, 34, 84, 34, 58, 34, 120, 121, 34, 125] keyT = [120, 121] := by decide
 
 end AGH.C20
